@@ -31,7 +31,7 @@ var initWhitelist = map[string]bool{
 	"errors": true, "io": true, "strconv": true, "unicode/utf8": true, "encoding/hex": true, "encoding/binary": true,
 	"context": true, "math/big": true, "strings": true, "bytes": true, "slices": true, "sort": true, "math/bits": true,
 	"math": true, "bufio": true, "io/fs": true, "encoding/base64": true, "internal/oserror": true, "cmp": true,
-	"iter": true, "maps": true, "unicode": true, "internal/byteorder": true, "internal/stringslite": true, "internal/itoa": true,
+	"iter": true, "maps": true, "encoding/xml": true, "unicode": true, "internal/byteorder": true, "internal/stringslite": true, "internal/itoa": true,
 	"net": false,
 }
 
@@ -136,7 +136,7 @@ func loadProgram(repo string) (*Interp, error) {
 	}
 	prog, spkgs := ssautil.AllPackages(pkgs, ssa.InstantiateGenerics)
 	prog.Build()
-	in := &Interp{prog: prog, fset: fset, globals: map[*ssa.Global]*Cell{}, finfo: map[*ssa.Function]*fnInfo{},
+	in := &Interp{prog: prog, fset: fset, maxValues: maxConcretize, globals: map[*ssa.Global]*Cell{}, finfo: map[*ssa.Function]*fnInfo{},
 		inited: map[*ssa.Package]bool{}, emptyStr: &StrV{}, maxSteps: 50_000_000, maxDepth: 2000, maxPreempt: 2}
 	for _, p := range spkgs {
 		if p != nil {
@@ -195,6 +195,7 @@ type Job struct {
 	Unwind     int     `json:"unwind"`
 	MaxPreempt int     `json:"max_preempt"`
 	MaxDeviate int     `json:"max_deviate"`
+	MaxValues  int     `json:"max_values"` // values tried when a symbolic length/index is concretised (default 96)
 	TimeoutMs  int     `json:"timeout_ms"`
 	Solver     string  `json:"solver"`
 }
@@ -269,6 +270,10 @@ func (in *Interp) runJob(job Job) (res *JobResult) {
 	in.unwind = job.Unwind
 	in.maxPreempt = job.MaxPreempt
 	in.maxDeviate = job.MaxDeviate
+	in.maxValues = maxConcretize
+	if job.MaxValues > 0 {
+		in.maxValues = job.MaxValues
+	}
 	in.fnSeen = map[*ssa.Function]bool{}
 	in.lastModel = nil
 	q0, t0 := in.solver.Queries, in.solver.Time
